@@ -3,7 +3,8 @@ Primitives of the Python fragment used by the translations of the rest of `htmlt
 `JSXTagAttrDict.__setitem__ / _update / update / __init__`, `JSXTag.__init__ / extend / append / __copy__`, the walk and
 `JSXTag.tagify`) that Py/Prim.lean, PrimC10, PrimC15b and PrimC20 lack.  Same contract: what CPython does on that argument
 shape, the exception kind CPython raises, or `unsupported` (never a claim about Python).  Each was compared with
-`/venv/bin/python` (harness/srctie_c20b.py `PRIM_CASES`, replayed through the `srcc20b` op on every run).
+`/venv/bin/python`: through the `srcc20b` lines of every run (harness/srctie_c20b.py), and — for the cases those lines cannot
+reach — by `python harness/srctie_c20b.py --prims`.
 -/
 import HtmlVerif.Py.Prim
 import HtmlVerif.Py.PrimC10
@@ -93,8 +94,10 @@ def pyNotJsxC20b (x : PVal) : PyM PVal :=
 
 /-- `d[k] = v` through `JSXTagAttrDict.__setitem__` while `d` is being iterated over (`for key, value in x.attrs.items():
     x.attrs[key] = …`): `new` is the dict afterwards.  When the keys are what they were, the iteration goes on as over a
-    snapshot; when the assignment added a key (the name `key` normalises to another name), CPython raises RuntimeError at
-    the next step of the iteration — or not at all, if it was the last item —: outside the fragment. -/
+    snapshot; when the assignment added a key (the name `key` normalises to another name that is not stored yet), CPython
+    raises RuntimeError ("dictionary changed size during iteration") at the next step of the iteration, also when it was the
+    last item; when it normalises to a name that *is* stored, the size stays and the other item is overwritten: such
+    receivers (filled behind the dict's back) are outside the fragment. -/
 def pySameKeysC20b (old new : PVal) : PyM PVal :=
   match old, new with
   | .dict a, .dict b => if a.map (·.1) == b.map (·.1) then pure new else throw .unsupported
@@ -123,12 +126,9 @@ def pyCopyObjC20b (x : PVal) : PyM PVal :=
     else pyCopy x
   | _ => pyCopyC20b x
 
-/-- `HTML(x)`: `mkHTML` (`UserString.__init__`: `str(x)`), except that `UserString` keeps a `str` instance — also an instance
-    of a subclass such as `jsx` — as its `data` as it is, which the universe does not have: `unsupported` for a `jsx` string -/
-def mkHTMLC20b (x : PVal) : PyM PVal :=
-  match jsxText? x with
-  | some _ => throw .unsupported
-  | Option.none => mkHTML x
+/-- `HTML(x)`: `HTML.__init__` stores `str(x)`; `str()` of a `jsx` string is the exact `str` with its text
+    (`type(HTML(jsx("a")).data) is str`), of every other value what `mkHTML` says -/
+def mkHTMLC20b (x : PVal) : PyM PVal := mkHTML (asStr x)
 
 /-! ### `jsx.__new__`, `jsx.__add__`, `jsx_tag_create` -/
 
@@ -139,13 +139,13 @@ def pyJsxNewC20b (x : PVal) : PyM PVal :=
   | .str s => pure (mkJsx s)
   | _ => throw .unsupported
 
-/-- `str.__add__(a, b)`: the concatenation, an exact `str`, when `b` is a `str` (also of a subclass); for any other `b` the
-    method *returns* `NotImplemented` — a value the universe does not have; `str.__add__(5, "a")` raises TypeError (the
+/-- `str.__add__(a, b)`: the concatenation, an exact `str`, when `b` is a `str` (also of a subclass); for any other `b` — a
+    number, None, a list, an `HTML` — the slot wrapper raises TypeError ("can only concatenate str") itself (it does not return
+    `NotImplemented`, so inside `jsx.__add__` no reflected method is tried); `str.__add__(5, "a")` raises TypeError too (the
     descriptor requires a `str`) -/
 def pyStrAddC20b (a b : PVal) : PyM PVal :=
   match asStr a, asStr b with
   | .str x, .str y => pure (.str (x ++ y))
-  | .str _, _ => throw .unsupported
   | _, _ => throw .typeError
 
 /-- `f.__name__ = v` on a function object: TypeError ("__name__ must be set to a string object") unless `v` is a `str`
